@@ -420,6 +420,44 @@ func (g *genState) childMergeBatch() *model.Batch {
 	return b
 }
 
+// recreateBatches generates the batches of a "deleted and recreated with
+// Merge operands" history for an existing child collection that has keys:
+// delete it; recreate it with Merge operands on keys its predecessor had;
+// one more write to the new incarnation (so that the merger sees two
+// segments of it).  Returns nil when no child qualifies.
+func (g *genState) recreateBatches() []*model.Batch {
+	var names []string
+	for _, n := range g.tree.ChildNames() {
+		if len(g.tree.Ch[n].KV) > 0 {
+			names = append(names, n)
+		}
+	}
+	if len(names) == 0 || !g.gp.Merge {
+		return nil
+	}
+	name := names[g.r.Intn(len(names))]
+	old := g.tree.Ch[name].SortedKeys()
+	var out []*model.Batch
+	mk := func(b *model.Batch) {
+		g.batchNo++
+		g.tree.Apply(b, MergeFold)
+		out = append(out, b)
+	}
+	top := func() []model.Op {
+		return []model.Op{{Kind: 'S', Key: []byte(g.keys[g.r.Intn(len(g.keys))]), Val: g.uniqueVal()}}
+	}
+	mk(&model.Batch{Ops: top(), DelChildren: []string{name}})
+	cb := &model.Batch{}
+	for _, k := range old {
+		if len(cb.Ops) < 3 && (len(cb.Ops) == 0 || g.r.Chance(1, 2)) {
+			cb.Ops = append(cb.Ops, model.Op{Kind: 'M', Key: []byte(k), Val: g.val()})
+		}
+	}
+	mk(&model.Batch{Ops: top(), Children: []model.ChildBatch{{Name: name, B: cb}}})
+	mk(&model.Batch{Ops: top(), Children: []model.ChildBatch{{Name: name, B: &model.Batch{Ops: []model.Op{{Kind: 'S', Key: []byte(g.keys[g.r.Intn(len(g.keys))]), Val: g.val()}}}}}})
+	return out
+}
+
 var mergerParks = []string{"merger.ingested", "merger.merged"}
 var persisterParks = []string{"persister.updated", "store.persist.begin", "store.persist.segments", "store.persist.footer", "store.persist.end",
 	"store.compact.begin", "store.compact.segments", "store.compact.footer", "store.compact.swapped"}
@@ -646,6 +684,25 @@ func GenProgram(r *Rng, prop string, cfg Config, gp GenParams) *Program {
 				add(Step{K: "batch", B: g.childMergeBatch()})
 				add(Step{K: "merge", A: mergeKind()})
 				add(Step{K: "check"})
+			}
+		}
+		if gp.Children && gp.Merge && i > 0 && r.Chance(1, 8) {
+			// a child collection whose data is still on its way down (in the
+			// dirty base or mid) is deleted and recreated with Merge operands
+			// on its predecessor's keys
+			if r.Chance(1, 2) {
+				add(Step{K: "merge", A: "plain"})
+			}
+			if bs := g.recreateBatches(); bs != nil {
+				for j, b := range bs {
+					add(Step{K: "batch", B: b})
+					if j == 0 && r.Chance(1, 3) {
+						add(Step{K: "merge", A: "plain"})
+					}
+				}
+				add(Step{K: "merge", A: mergeKind()})
+				add(Step{K: "check"})
+				fresh = false
 			}
 		}
 		if gp.PersistAfterBatchPct > 0 && lower && r.Intn(100) < gp.PersistAfterBatchPct {
